@@ -8,7 +8,7 @@
    T, nm, c, d, ch, now, later, pget: as in Props/C05.v.  kmod = "modified".                       *)
 From Coq Require Import String ZArith List Bool.
 From V Require Import Base.UString Base.Json Model.Timestamp Model.Versioning
-  Proofs.VersioningFacts Proofs.VersioningProofs Gen.MarkingFacts Proofs.MarkingsSrc Proofs.MarkingsVersioning.
+  Proofs.VersioningFacts Proofs.VersioningProofs Gen.VersioningTables Gen.MarkingFacts Proofs.MarkingsSrc Proofs.MarkingsVersioning.
 Import ListNotations.
 Open Scope list_scope.
 
@@ -23,3 +23,32 @@ Theorem result_is_new_version : forall T nm cp ck c d ch now d' v,
   (forall k, ustr_eqb k kmod = false -> ~ In k marking_keys -> plookup k d' = stored cp c k (pget k d)).
 Proof. exact marking_call_is_new_version. Qed.
 Print Assumptions result_is_new_version.
+
+(* ---- the six hypotheses are satisfiable with `ch` keyed on a marking property (what object-level
+        add_markings asks for): a plain-dict identity, live tables read from /repo, clock = 2020-01-01 ---- *)
+Definition ex_marked_identity : pdict :=
+  [(u "type", PJ (JStr (u "identity"))); (u "id", PJ (JStr (u "identity--311b2d2d-f010-4473-83ec-1edf84858f4c")));
+   (u "created", PJ (JStr (u "2020-01-01T00:00:00.000Z"))); (u "modified", PJ (JStr (u "2020-01-01T00:00:00.001Z")));
+   (u "name", PJ (JStr (u "x"))); (u "revoked", PJ (JBool false))].
+Definition ex_marking_change : pdict :=
+  [(u "object_marking_refs", PJ (JArr [JStr (u "marking-definition--34098fce-860f-48ae-8e50-ebd3cc5e41da")]))].
+
+Example result_is_new_version_hyps_satisfiable :
+  good_ver V20 /\ NoDup (keys ex_marked_identity) /\ NoDup (keys ex_marking_change) /\
+  (forall k, In k (keys ex_marking_change) -> In k src_nv_changed_keys) /\
+  check_versionable live_tables CDict ex_marked_identity = Ok V20 /\
+  exists d', new_version live_tables NaiveUtc clean_id accept_all CDict ex_marked_identity ex_marking_change
+                         63713433600000000%Z = Ok d' /\
+             plookup (u "object_marking_refs") d' = plookup (u "object_marking_refs") ex_marking_change /\
+             plookup (u "name") d' = plookup (u "name") ex_marked_identity.
+Proof.
+  split; [left; reflexivity|]. split.
+  { unfold keys. cbn [map fst ex_marked_identity].
+    repeat (constructor; [cbn; intros H; repeat (destruct H as [H|H]; [discriminate H|]); exact H|]). constructor. }
+  split.
+  { unfold keys. cbn [map fst ex_marking_change]. constructor; [intros []|constructor]. }
+  split.
+  { intros k [H|[]]. subst k. vm_compute. tauto. }
+  split; [vm_compute; reflexivity|].
+  eexists. split; [vm_compute; reflexivity|]. split; vm_compute; reflexivity.
+Qed.
